@@ -85,6 +85,9 @@ enum Step {
     /// one node acknowledges USE only after the client's timeout, the other at once: the call may fail, but if it
     /// returns Ok every later request must still run on a connection in that keyspace
     UseSlow(&'static str, usize),
+    /// the node is down (all its connections gone, nothing listening) WHILE the keyspace is set, and comes back
+    /// afterwards: its re-established connections must not carry requests before the keyspace is set on them
+    DownUseUp(usize, &'static str),
     Use(&'static str, bool),
     Kill(usize),
     Restart(usize),
@@ -187,6 +190,21 @@ async fn run_hist(h: &Hist) -> HistOut {
                         c.close(how);
                     }
                 }
+            }
+            Step::DownUseUp(n, name) => {
+                cluster.stop_node(*n, CloseHow::Rst);
+                // let the driver notice that the pool of this node is gone
+                tokio::time::sleep(Duration::from_millis(80)).await;
+                let op = next_op();
+                call(&log, op, "use_keyspace", name.to_string());
+                let r = tokio::time::timeout(Duration::from_secs(20), session.use_keyspace(*name, false)).await;
+                let ok = matches!(r, Ok(Ok(())));
+                ret(&log, op, ok, format!("{r:?}"));
+                out.use_results.push((op, name.to_string(), ok));
+                cluster.start_node(*n).await;
+                let (c, n2) = (cluster.clone(), *n);
+                cluster.wait_until(Duration::from_secs(5), move || c.established(n2).iter().any(|x| !x.registered.load(Ordering::SeqCst))).await;
+                tokio::time::sleep(Duration::from_millis(80)).await;
             }
             Step::Restart(n) => {
                 cluster.stop_node(*n, CloseHow::Rst);
@@ -328,6 +346,7 @@ fn gen_hist(rng: &mut Rng, seed: u64) -> Hist {
             7 => Step::Restart(rng.below(2) as usize),
             8 => Step::AddNode,
             9 => Step::UseFailing(names[rng.below(3) as usize]),
+            11 if rng.chance(1, 2) => Step::DownUseUp(rng.below(2) as usize, names[rng.below(3) as usize]),
             10 if rng.chance(1, 3) => Step::UseSlow(names[rng.below(3) as usize], rng.below(2) as usize),
             _ => Step::Pause(5 + rng.below(60)),
         });
@@ -443,6 +462,11 @@ pub fn run(ctx: &Ctx) -> Outcome {
                     Step::Use(leak(it.next().unwrap_or("ks")), it.next() == Some("true"))
                 }
                 "UseFailing" => Step::UseFailing(leak(inner)),
+                "DownUseUp" => {
+                    let mut it = inner.split(", ");
+                    let n = it.next().and_then(|x| x.parse().ok()).unwrap_or(1);
+                    Step::DownUseUp(n, leak(it.next().unwrap_or("ks")))
+                }
                 "UseSlow" => {
                     let mut it = inner.split(", ");
                     Step::UseSlow(leak(it.next().unwrap_or("ks")), it.next().and_then(|x| x.parse().ok()).unwrap_or(0))
@@ -494,7 +518,7 @@ pub fn run(ctx: &Ctx) -> Outcome {
         }
     }
     rt.block_on(validation(&mut out, ctx));
-    for c in ["keyspace-given-to-session-builder", "step:Use", "step:Kill", "step:Restart", "step:AddNode", "step:UseFailing", "step:UseSlow", "requests-on-connections-opened-after-use", "use:failed-on-some-connection", "name:valid", "name:invalid", "validation-part"] {
+    for c in ["keyspace-given-to-session-builder", "step:Use", "step:Kill", "step:Restart", "step:AddNode", "step:UseFailing", "step:UseSlow", "step:DownUseUp", "requests-on-connections-opened-after-use", "use:failed-on-some-connection", "name:valid", "name:invalid", "validation-part"] {
         out.require_class(c);
     }
     out
